@@ -168,6 +168,26 @@ func generate(o *hx.Opts) []*dirIn {
 	add("order", []entryIn{probe("00-okz", 0o755), probe("99-oka", 0o755), probe("09-okm", 0o755), probe("10-okn", 0o755)}, nil)
 	add("order", []entryIn{probe("2 -ok", 0o644), probe("20-oka", 0o755), probe("19-okb", 0o755), probe("21-ok0", 0o755)}, nil)
 
+	// the whole two-digit range, deliberately: 08 and 09 (not octal!) together with lower and higher
+	// indices, every leading-zero index, equal indices under different names
+	idxSets := [][]int{
+		{9, 1, 10}, {8, 7, 9, 0}, {8, 9, 2, 5, 10, 11, 80, 99}, {0, 1, 2, 3, 4, 5, 6, 7, 8, 9},
+		{8, 1}, {9, 7}, {1, 8, 9, 10}, {77, 8, 78, 9, 7, 79}, {19, 8, 18, 9, 20}, {99, 0, 50, 9},
+	}
+	for k, set := range idxSets {
+		var es []entryIn
+		for i, x := range set {
+			// names chosen so that name order never agrees with index order by accident
+			es = append(es, probe(fmt.Sprintf("%02d-ok%c%d", x, 'z'-rune(x%26), i), 0o755))
+		}
+		d := add("order", es, nil)
+		if k%2 == 1 {
+			d.Plan = []string{"r"}
+		}
+	}
+	add("order", []entryIn{probe("08-okb", 0o755), probe("08-oka", 0o755), probe("07-okc", 0o755), probe("09-oka", 0o755), probe("09-okb", 0o755), probe("01-okz", 0o755)}, nil)
+	add("order", []entryIn{probe("09-die0", 0o755), probe("03-ok1", 0o755), probe("08-idleexit2", 0o755), probe("10-ok3", 0o755), probe("05-exit4", 0o755)}, nil).Plan = []string{"r", "idle", "r"}
+
 	{ // more than 12 plugins with few distinct indices: sort.Slice leaves insertion sort and may permute ties
 		var es []entryIn
 		for i := 0; i < 14; i++ {
@@ -197,7 +217,8 @@ func randomDir(r *rand.Rand, stream string) *dirIn {
 	n := 1 + r.Intn(8)
 	misnamedExec := r.Intn(6) == 0 // most directories are clean; some hold a misnamed executable
 	for i := 0; i < n; i++ {
-		idx := fmt.Sprintf("%02d", []int{0, 1, 9, 10, 10, 11, 20, 50, 99, r.Intn(100)}[r.Intn(10)])
+		// biased to the corners of the two-digit range: leading zeros, 07/08/09/10, equal indices, extremes
+		idx := fmt.Sprintf("%02d", []int{0, 1, 7, 8, 8, 9, 9, 10, 10, 11, 80, 99, r.Intn(10), r.Intn(100)}[r.Intn(14)])
 		behave := "ok"
 		switch x := r.Intn(20); {
 		case x < 2:
